@@ -6,7 +6,8 @@
     succeeds, and a flow that advanced is fully usable in its new state."
 
     Statements only; the proofs are in proofs/C09_inv.v (the invariant [Inv]), C09_chunk.v,
-    C09_calls.v, C09_flow.v (one lemma per operation of Flow.v) and C09_proofs.v (script level).
+    C09_calls.v, C09_flow.v (one lemma per operation of Flow.v), AfterErr.v (the state a failed
+    body read leaves) and C09_proofs.v (script level).
 
     Hypotheses that the proofs forced, all explicit below:
     - [~ Known s o]: finding F18, a second [as_new_flow] on a Redirect flow whose request has been
@@ -39,7 +40,8 @@ Qed.
 
 (* ------------------------------------------------------------------ one theorem per operation *)
 (** [safe P r]: [r] is not a panic and a returned value satisfies [P] (errors leave the caller with
-    the flow it had); [total P r]: [r] is a value satisfying [P]. *)
+    the flow it had -- except a failed body read, which leaves the chunked decoder in the state it
+    had reached: [c09_read_after_err]); [total P r]: [r] is a value satisfying [P]. *)
 
 Theorem c09_header : forall f k v,
   Inv TPrepare f -> len (am_added (c_req (i_call f))) < HEADER_BUDGET ->
@@ -82,6 +84,14 @@ Proof. exact recv_try_response_safe. Qed.
 Theorem c09_read : forall f input cap,
   Inv TRecvBody f -> safe (fun r => Inv TRecvBody (fst (fst r))) (recv_body_read f input cap).
 Proof. exact recv_body_read_safe. Qed.
+
+(** When [read] returns an error the Rust decoder has been mutated in place: the flow the caller holds
+    afterwards is [recv_body_after_err f input cap] (Flow.v; what [Script.do_read] continues from).
+    It satisfies the invariant of RecvBody again (in particular the decoder is never left in the
+    transient Trailer state), so every call permitted in RecvBody remains panic-free after an error. *)
+Theorem c09_read_after_err : forall f input cap,
+  Inv TRecvBody f -> Inv TRecvBody (recv_body_after_err f input cap).
+Proof. exact AfterErr.recv_body_after_err_inv. Qed.
 
 Theorem c09_stop : forall f b, Inv TRecvBody f -> total (Inv TRecvBody) (recv_body_stop f b).
 Proof. exact recv_body_stop_total. Qed.
@@ -320,7 +330,7 @@ Qed.
     hold for what the code says now. A change of one of these functions that is not an equivalent rewrite breaks the
     proof obligation here. *)
 From Hoot Require Import Gen.
-From Hoot.proofs Require Import Gen_equiv.
+From Hoot.proofs Require Import Gen_equiv_ext.
 Theorem c09_code_need_request_body : forall m, gen_need_request_body m = need_request_body m.
 Proof. exact gen_need_request_body_eq. Qed.
 
@@ -336,6 +346,7 @@ Print Assumptions c09_direct_write.
 Print Assumptions c09_send_body_queries.
 Print Assumptions c09_try_response.
 Print Assumptions c09_read.
+Print Assumptions c09_read_after_err.
 Print Assumptions c09_stop.
 Print Assumptions c09_recv_body_queries.
 Print Assumptions c09_redirect_proceed.
